@@ -182,6 +182,12 @@ def attribute_crash(ctx, sp, t, p16, d, flavour, sched):
     where = "teardown" if (stage == "decoded" and pend in ("dec_deinit", "dec_deinit_handle")) else "decode"
     what = "decdrv died rc=%s in %s (pending call %s) after %d pictures; %s; stderr: %s" % (
         d.rc, where, pend, len(d.frames), desc(sp, flavour, t, p16, sched), d.stderr[-200:].replace("\n", " "))
+    if where == "teardown" and ctx.double_free_confirmed and d.rc in (-6, -11):
+        # the ASan decodes of this campaign (run first) already pinned the teardown crash on the double free
+        chk.violation("C09|double-free|dec_mod_ctxt_arr", what + " | ASan (same campaign): dec_system_resource_init frees "
+                      "dec_mod_ctxt_arr, which stays on the decoder memory map and is freed again at svt_av1_dec_deinit",
+                      {"spec": sp, "threads": t, "pipe16": p16})
+        return
     if flavour != "asan":
         # re-run the same case under ASan (slack buffers: the bit reader's over-read is C08's finding)
         p = d.prefix + ".attr"
@@ -325,8 +331,7 @@ def run(chk, tier, replay=None):
                                                           rng.choice([0, 20, 200]))
                 p16 = 1 if (bases[sp["name"]][1] is not None and (si + t + k) % 4 == 0) else 0
                 jobs.append(("plain", sp, t, p16, sched))
-    asan_n = len(usable) if quick else len(usable)
-    for si, sp in enumerate(usable[:asan_n]):
+    for si, sp in enumerate(usable):
         t = thread_counts[(si + 1) % len(thread_counts)]
         jobs.append(("asan", sp, t, 0, None if si % 2 == 0 else "%d:300:20" % (chk.seed * 77 + si)))
     # tsan is ~25x slower: the smallest streams of each tile layout first
@@ -443,10 +448,12 @@ def run(chk, tier, replay=None):
         except OSError:
             pass
     return chk.finish(
-        rule="streams = SVT encodes with requested tile grids 1x1..4x4 on 352x288..640x360 (inter and all-intra, 8/10-bit, "
-             "LR+CDEF on, fixed superres, MFMV); every stream is decoded with threads in {2,3,4,8} (thorough {2,3,4,6,8,16}) x "
-             "schedule seeds on plain (compared picture by picture with threads=1, both pipelines), once on asan and the "
-             "smallest streams per tile layout on tsan (H6 annotations on); evaluations = multi-threaded decodes judged; "
-             "non-trivial = an MT decode whose pictures were all compared with the single-thread pictures; "
-             "distinct_handoff_orders = number of distinct hashes of the global order of H6 hand-off publications "
-             "(thread ordinal, flag ordinal) recorded by the trace hook in the plain runs")
+        rule="streams = SVT encodes (preset 8) with requested tile grids 1x1..4x4 on 192x128..640x360: half with loop "
+             "restoration forced on, half with it off (inter and all-intra, 8/10-bit, CDEF on, fixed superres with per-frame "
+             "width change, MFMV); every stream is decoded with threads in {2,3,4,8} (thorough {2,3,4,6,8,16}) x schedule "
+             "seeds (H1/H6 perturbation) on plain and compared picture by picture with threads=1 (both pipelines), once on "
+             "asan, and the smallest streams per tile layout on tsan with the H6 annotations on; one more tsan decode runs "
+             "with the annotations off; evaluations = multi-threaded decodes judged; non-trivial = an MT decode whose "
+             "pictures were all compared and equal to the single-thread pictures; distinct_handoff_orders = number of "
+             "distinct hashes of the global order of H6 hand-off publications (thread ordinal, flag ordinal) recorded by the "
+             "trace hook in the plain runs (one hash per run: exactly what was observed, not a bound)")
